@@ -557,4 +557,13 @@ def rule_c07r2(ctx):
     return rr
 
 
-RULES = [("C07-R2", rule_c07r2), ("C12-R1", rule_r1), ("C12-R2", rule_r23), ("C12-R4", rule_r4), ("C12-R5", rule_r5), ("C12-R7", rule_r7), ("C12-R8", rule_r8), ("C12-R9", rule_r9), ("C12-R6", rule_c06r6), ("C06-R4", rule_c06r4), ("C06-R3", rule_c06r3)]
+def rule_c06r11(ctx):
+    """The globals read inside lambdas / comprehensions of a class body are collected while the symbol
+    tables are walked; a comprehension table that is not recognised is never looked at (shared rule
+    C06-R11)."""
+    from .c06 import rule_r11 as r
+
+    return r(ctx)
+
+
+RULES = [("C06-R11", rule_c06r11), ("C07-R2", rule_c07r2), ("C12-R1", rule_r1), ("C12-R2", rule_r23), ("C12-R4", rule_r4), ("C12-R5", rule_r5), ("C12-R7", rule_r7), ("C12-R8", rule_r8), ("C12-R9", rule_r9), ("C12-R6", rule_c06r6), ("C06-R4", rule_c06r4), ("C06-R3", rule_c06r3)]
